@@ -19,7 +19,7 @@ LEVEL = "exploration"
 RULE = ("case = (intrinsic expression | payload template, input); expressions from a grammar over all 18 functions, 0..k+1 arguments of every "
         "JSON type, paths, nesting 0..3, strings over an alphabet with , ' \\ ( ) { } [ ] ^ - ; templates of depth<=3 (thorough 5) mixing literal and "
         "'.$' members. non-trivial = nesting>=1 or a hostile character or a wrong-arity/ill-typed call; distinct by expression/template text")
-ASSUMPTIONS = ["unspecified and skipped: States.Format of non-string/non-integer arguments, negative ArrayRange steps, MathRandom values, "
+ASSUMPTIONS = ["unspecified and skipped: States.Format of non-string/non-integer arguments, MathRandom values, "
                "Base64Decode of invalid text, numeric literal spellings outside JSON, escapes other than \\' \\\\ \\{ \\}",
                "ArrayUnique order and StringSplit empty members are matched as patterns (any order / modulo empty strings); hash-seed independence is decided by the separate sub-process sweep"]
 FLOORS = {"selector_cases": 300, "evaluations": 6000, "expressions_compared": 4000, "templates_compared": 500, "state_level_compared": 200, "nontrivial": 2500,
@@ -446,7 +446,8 @@ FIXED_CASES = [
     "States.ArrayUnique($.sa)", "States.ArrayUnique($.nest)", "States.ArrayUnique($.mixed)", "States.StringSplit('a^b', '^')",
     "States.StringSplit('a.b-c', '.-')", "States.StringSplit('a]b', ']')", "States.StringSplit('a\\\\b', '\\\\')", "States.StringSplit($.s, ',')",
     "States.MathAdd(1, 2)", "States.MathAdd(true, 1)", "States.MathAdd(1.0, 1)", "States.ArrayGetItem($.arr, 1)", "States.ArrayGetItem($.arr, 9)",
-    "States.ArrayRange(1, 9, 2)", "States.ArrayRange(1, 5000, 1)", "States.ArrayPartition($.arr, 2)", "States.ArrayPartition($.arr, 0)",
+    "States.ArrayRange(1, 9, 2)", "States.ArrayRange(1, 5000, 1)", "States.ArrayRange(5, 1, -2)", "States.ArrayRange(9, 1, -1)", "States.ArrayRange(5, 2, -2)",
+    "States.ArrayRange(1, 1, -1)", "States.ArrayRange(3, 4, -1)", "States.ArrayRange(1000, 1, -1)", "States.ArrayRange(1001, 1, -1)", "States.ArrayRange(-3, 3, 3)", "States.ArrayPartition($.arr, 2)", "States.ArrayPartition($.arr, 0)",
     "States.Base64Encode('hello')", "States.Base64Decode($.b64)", "States.Hash('a', 'SHA-256')", "States.Hash('a', 'SHA-3')",
     "States.JsonMerge($.o, $.o2, false)", "States.JsonMerge($.o, $.o2, true)", "States.JsonToString($.o)", "States.StringToJson('[1,2]')",
     "States.StringToJson('{bad')", "States.UUID()", "States.UUID(1)", "States.Nope(1)", "notacall", "States.ArrayLength(States.Array(1, States.Array(2, 3)))",
